@@ -71,6 +71,7 @@ struct Sim {
   long elig_total = 0; bool elig_on = false;   // instructions executed in programs matching opt fault_only_prefix
   long instr_cost_ns = 100;
   long max_instr = 50000000;
+  long max_rec = 0, rec_total = 0;
   long max_cycles = 200000;
   // fault injection
   long fault_countdown = -1;   // >=0: inject when reaches 0
